@@ -53,4 +53,29 @@ CHECKS = {
           "corruption kinds); the harness concretises each kind to many strings (truncation at every position, field removal, base64 damage, parameter edits, method/version edits) "
           "and calls the real functions in a process pool; TLC judges each outcome (true / false / ValueError|TypeError|False, never True, never another exception) and that every abstract operation was covered."),
     note="Cryptographic strength of scrypt/SHA-256 is assumed. Strings that parse to identical fields are not corruptions. Parameter edits capped at 64 MiB of scrypt memory."),
+ "C04": dict(
+    level="model_checking",
+    technique="TLC exhaustive model checking of specs/Conn.tla (replay budget, control configuration) + TLC trace validation (specs/Trace_Conn.tla) of recorded adversarial executions of two real endpoints + scripted replay of the model's counterexample",
+    text='Design level: every schedule of 4 plain messages with loss and attacker replay of any recorded datagram (small windows so that copies fall out of them) is explored by TLC; the control configuration with the stale-datagram drop removed must be refuted. Code level: seeded adversarial executions of two real endpoints (duplication, long delays, replays up to 400 datagrams back, wrap crossing) are recorded event by event and TLC checks each to be a behaviour of Trace_Conn: accept/duplicate decisions, drop-whole, message-level de-duplication and the at-most-once ghost are clauses evaluated at every event.',
+    note="Trusted: TLC, the JSON bridge, the recorder (harness/connworld.py: wraps public calls from outside, decodes every datagram with its own AES-GCM), the virtual clock. Two ConnectionBase endpoints with a preset session key (the handshake is C02's); exhaustive model results hold for the small constants of each configuration (listed in evidence), the real constants (65535/32/256) are covered by recorded executions, i.e. sampled. Named deviations of KNOWN_FINDINGS.txt are admitted by the judge and reported when used."),
+ "C05": dict(
+    level="model_checking",
+    technique='TLC liveness checking of specs/Conn.tla under fairness (no state constraint) + TLC trace validation of recorded lossy executions with end-of-run obligations (healed network => every guaranteed payload delivered, nothing left queued)',
+    text="Design level: Delivery and Quiesce are checked by TLC under weak fairness with fault budgets in the state (the same datagram can be lost twice; round trips longer than the resend interval). Code level: guaranteed-heavy lossy executions at several MTUs with boundary payload sizes are recorded, the network is healed and left to settle, and Trace_Conn's end clauses require every guaranteed payload delivered and nothing left queued or unsent (K_notstuck/S_fit catch sizes that can never be packed).",
+    note="Trusted: TLC, the JSON bridge, the recorder (harness/connworld.py: wraps public calls from outside, decodes every datagram with its own AES-GCM), the virtual clock. Two ConnectionBase endpoints with a preset session key (the handshake is C02's); exhaustive model results hold for the small constants of each configuration (listed in evidence), the real constants (65535/32/256) are covered by recorded executions, i.e. sampled. Named deviations of KNOWN_FINDINGS.txt are admitted by the judge and reported when used."),
+ "C06": dict(
+    level="model_checking",
+    technique='TLC trace validation (specs/Trace_Conn.tla) of recorded fragment-heavy executions: split/reassembly clauses and byte-exactness at every event',
+    text='Fragment-heavy executions (boundary lengths around the datagram capacity and multiples of the fragment size, several MTUs, duplication/reordering, several fragmented messages in flight) are recorded; Trace_Conn requires: not fragmented up to the limit, slices add up, every delivered payload byte-identical to a sent one and delivered through a reassembly the specification can explain, refusal above the limit.',
+    note="Trusted: TLC, the JSON bridge, the recorder (harness/connworld.py: wraps public calls from outside, decodes every datagram with its own AES-GCM), the virtual clock. Two ConnectionBase endpoints with a preset session key (the handshake is C02's); exhaustive model results hold for the small constants of each configuration (listed in evidence), the real constants (65535/32/256) are covered by recorded executions, i.e. sampled. Named deviations of KNOWN_FINDINGS.txt are admitted by the judge and reported when used."),
+ "C07": dict(
+    level="model_checking",
+    technique='TLC exhaustive model checking of specs/Conn.tla (callback history, safety + eventually under fairness, control configuration) + TLC trace validation where the user callbacks are recorded events',
+    text="Design level: at-most-once / truthful / eventually-once callbacks are checked on every schedule incl. round trips longer than the resend interval; the control with the RetrySender guard removed must be refuted. Code level: the bag of user callbacks of every recorded event must equal the bag the specification derives from its own state (acked / timed-out datagrams, retry modes, fragment bookkeeping); time-outs only after the time-out has elapsed; success only after the peer's ghost accepted the whole message; every callback owed has fired once the healed run settles.",
+    note="Trusted: TLC, the JSON bridge, the recorder (harness/connworld.py: wraps public calls from outside, decodes every datagram with its own AES-GCM), the virtual clock. Two ConnectionBase endpoints with a preset session key (the handshake is C02's); exhaustive model results hold for the small constants of each configuration (listed in evidence), the real constants (65535/32/256) are covered by recorded executions, i.e. sampled. Named deviations of KNOWN_FINDINGS.txt are admitted by the judge and reported when used."),
+ "C09": dict(
+    level="model_checking",
+    technique='TLC trace validation (specs/Trace_Conn.tla) of recorded executions with bursts of hundreds of tiny messages at several MTUs: size / count / length / packing clauses at every build event',
+    text='Executions with bursts of 40-300 empty and 1-byte messages per tick, mixed sizes and MTUs 512/1096/1500 are recorded; Trace_Conn requires for every built datagram: at most MTU-28 bytes, count = number of messages <= 255, length field = payload area, nothing left queued that would have fitted, construction never raises, and nothing is left unsent at the end.',
+    note="Trusted: TLC, the JSON bridge, the recorder (harness/connworld.py: wraps public calls from outside, decodes every datagram with its own AES-GCM), the virtual clock. Two ConnectionBase endpoints with a preset session key (the handshake is C02's); exhaustive model results hold for the small constants of each configuration (listed in evidence), the real constants (65535/32/256) are covered by recorded executions, i.e. sampled. Named deviations of KNOWN_FINDINGS.txt are admitted by the judge and reported when used."),
 }
